@@ -489,6 +489,149 @@ def binding_run(carve):
     return _enum_outcome("every public method / accessor / reflected operator / free function builds ColFn(<its operator>, arguments in call order)", n, bad)
 
 
+# ---------------------------------------------------------------------------------
+# LIB-dt: temporal operators (abstract ordinals in the symbolic model) against Python's datetime on both engines
+
+
+def temporal_run_factory(backend):
+    def run(carve):
+        import datetime as dtm
+        import warnings
+
+        import polars as pl
+        import sqlalchemy as sqa
+
+        from .c13 import _enum_outcome
+
+        pdt = H.pdt
+        dts = [dtm.datetime(2020, 2, 29, 13, 14, 15, 123456), dtm.datetime(1999, 12, 31, 23, 59, 59, 999000), dtm.datetime(2024, 1, 1, 0, 0, 0), None, dtm.datetime(2023, 7, 9, 6, 30, 1, 5), dtm.datetime(1970, 1, 4, 12, 0, 0)]
+        dtb = [dtm.datetime(2020, 3, 1, 0, 0, 0), dtm.datetime(1999, 12, 31, 0, 0, 0), None, dtm.datetime(2000, 1, 1), dtm.datetime(2023, 7, 9, 6, 30, 1, 5), dtm.datetime(1969, 12, 28, 1, 2, 3)]
+        ds = [dtm.date(2020, 2, 29), dtm.date(1999, 12, 31), dtm.date(2024, 1, 1), None, dtm.date(2023, 7, 9), dtm.date(1970, 1, 4)]
+        df = pl.DataFrame({"dt": pl.Series(dts, dtype=pl.Datetime("us")), "dtb": pl.Series(dtb, dtype=pl.Datetime("us")), "d": pl.Series(ds, dtype=pl.Date), "h": list(range(6))})
+        if backend == "polars":
+            t = pdt.Table(df, name="t")
+        else:
+            eng = sqa.create_engine("sqlite://")
+            df.write_database("t", eng)
+            t = pdt.Table("t", pdt.SqlAlchemy(eng))
+        n, bad = 0, []
+
+        def N(f):
+            return lambda *a: None if any(x is None for x in a) else f(*a)
+
+        def tdiv(a, b):  # truncating division (total duration in a unit)
+            q = abs(a) // b
+            return q if a >= 0 else -q
+
+        us = lambda td: (td.days * 86400 + td.seconds) * 1000000 + td.microseconds  # noqa: E731
+        cases = [
+            ("dt.year", lambda: t.dt.dt.year(), [N(lambda x: x.year)(x) for x in dts]), ("dt.month", lambda: t.dt.dt.month(), [N(lambda x: x.month)(x) for x in dts]), ("dt.day", lambda: t.dt.dt.day(), [N(lambda x: x.day)(x) for x in dts]),
+            ("dt.hour", lambda: t.dt.dt.hour(), [N(lambda x: x.hour)(x) for x in dts]), ("dt.minute", lambda: t.dt.dt.minute(), [N(lambda x: x.minute)(x) for x in dts]), ("dt.second", lambda: t.dt.dt.second(), [N(lambda x: x.second)(x) for x in dts]),
+            ("dt.millisecond", lambda: t.dt.dt.millisecond(), [N(lambda x: x.microsecond // 1000)(x) for x in dts]), ("dt.microsecond", lambda: t.dt.dt.microsecond(), [N(lambda x: x.microsecond)(x) for x in dts]),
+            ("dt.day_of_week", lambda: t.dt.dt.day_of_week(), [N(lambda x: x.isoweekday())(x) for x in dts]), ("dt.day_of_year", lambda: t.dt.dt.day_of_year(), [N(lambda x: x.timetuple().tm_yday)(x) for x in dts]),
+            ("date.year", lambda: t.d.dt.year(), [N(lambda x: x.year)(x) for x in ds]), ("date.month", lambda: t.d.dt.month(), [N(lambda x: x.month)(x) for x in ds]), ("date.day", lambda: t.d.dt.day(), [N(lambda x: x.day)(x) for x in ds]),
+            ("date.day_of_week", lambda: t.d.dt.day_of_week(), [N(lambda x: x.isoweekday())(x) for x in ds]), ("date.day_of_year", lambda: t.d.dt.day_of_year(), [N(lambda x: x.timetuple().tm_yday)(x) for x in ds]),
+            ("(dt - dtb).dur.days", lambda: (t.dt - t.dtb).dur.days(), [N(lambda a, b: tdiv(us(a - b), 86400 * 10**6))(a, b) for a, b in zip(dts, dtb)]),
+            ("(dt - dtb).dur.hours", lambda: (t.dt - t.dtb).dur.hours(), [N(lambda a, b: tdiv(us(a - b), 3600 * 10**6))(a, b) for a, b in zip(dts, dtb)]),
+            ("(dt - dtb).dur.minutes", lambda: (t.dt - t.dtb).dur.minutes(), [N(lambda a, b: tdiv(us(a - b), 60 * 10**6))(a, b) for a, b in zip(dts, dtb)]),
+            ("(dt - dtb).dur.seconds", lambda: (t.dt - t.dtb).dur.seconds(), [N(lambda a, b: tdiv(us(a - b), 10**6))(a, b) for a, b in zip(dts, dtb)]),
+            ("(dt - dtb).dur.milliseconds", lambda: (t.dt - t.dtb).dur.milliseconds(), [N(lambda a, b: tdiv(us(a - b), 1000))(a, b) for a, b in zip(dts, dtb)]),
+            ("dt > dtb", lambda: t.dt > t.dtb, [N(lambda a, b: a > b)(a, b) for a, b in zip(dts, dtb)]), ("dt == dtb", lambda: t.dt == t.dtb, [N(lambda a, b: a == b)(a, b) for a, b in zip(dts, dtb)]),
+            ("d <= date literal", lambda: t.d <= dtm.date(2020, 2, 29), [N(lambda a: a <= dtm.date(2020, 2, 29))(a) for a in ds]),
+            ("dt.cast(Date)", lambda: t.dt.cast(pdt.Date()), [N(lambda a: a.date())(a) for a in dts]), ("d.cast(Datetime)", lambda: t.d.cast(pdt.Datetime()), [N(lambda a: dtm.datetime(a.year, a.month, a.day))(a) for a in ds]),
+            ("max(dt, dtb)", lambda: pdt.max(t.dt, t.dtb), [max([x for x in (a, b) if x is not None], default=None) for a, b in zip(dts, dtb)]),
+        ]
+        with warnings.catch_warnings():
+            warnings.simplefilter("ignore")
+            for label, mk, want in cases:
+                n += 1
+                try:
+                    out = t >> pdt.mutate(r=mk()) >> pdt.arrange(t.h) >> pdt.export(pdt.Polars())
+                    got = out["r"].to_list()
+                except pdt.errors.NotSupportedError:
+                    continue
+                except Exception as ex:  # noqa: BLE001
+                    bad.append(f"{label} on {backend}: raises {type(ex).__name__}: {str(ex)[:140]}")
+                    continue
+                if label == "dt.microsecond" and backend == "sqlite":
+                    # documented deviation (the library warns: SQLite's datetime functions have millisecond resolution)
+                    got, want = [None if g is None else g // 1000 for g in got], [None if w is None else w // 1000 for w in want]
+                if got != want:
+                    bad.append(f"{label} on {backend}: engine {got}, Python datetime gives {want}")
+        return _enum_outcome(f"temporal operators on {backend}: component extraction, durations (truncated totals), comparisons, casts and horizontal max agree with Python's datetime", n, bad)
+
+    return run
+
+
+def numeric_run_factory(backend):
+    """numeric functions whose documented value is an uninterpreted function in the symbolic model (rounding, powers,
+    transcendental functions): Python's math on sampled values (no rounding ties, inside the real domain)"""
+    def run(carve):
+        import math
+        import warnings
+
+        import polars as pl
+        import sqlalchemy as sqa
+
+        from .c13 import _enum_outcome
+
+        pdt = H.pdt
+        xs = [2.3456, -2.3456, 0.7249, 17.0491, -0.3149, None, 123.4567, 1.0]  # no value is a rounding tie at 0, 1 or 2 digits
+        ns = [7, -7, 0, 3, -12, None, 100, 1]
+        df = pl.DataFrame({"x": pl.Series(xs, dtype=pl.Float64), "n": pl.Series(ns, dtype=pl.Int64), "h": list(range(8))})
+        if backend == "polars":
+            t = pdt.Table(df, name="t")
+        else:
+            eng = sqa.create_engine("sqlite://")
+            df.write_database("t", eng)
+            t = pdt.Table("t", pdt.SqlAlchemy(eng))
+
+        def N(f):
+            def g(*a):
+                if any(v is None for v in a):
+                    return None
+                try:
+                    return f(*a)
+                except (ValueError, ZeroDivisionError, OverflowError):
+                    return "domain"
+            return g
+
+        def rnd(v, d=0):
+            import decimal
+
+            q = decimal.Decimal(repr(v)).quantize(decimal.Decimal(1).scaleb(-d), rounding=decimal.ROUND_HALF_EVEN)
+            return float(q)
+
+        cases = [
+            ("x.round()", lambda: t.x.round(), [N(lambda v: rnd(v))(v) for v in xs]), ("x.round(1)", lambda: t.x.round(1), [N(lambda v: rnd(v, 1))(v) for v in xs]), ("x.round(2)", lambda: t.x.round(2), [N(lambda v: rnd(v, 2))(v) for v in xs]),
+            ("x.floor()", lambda: t.x.floor(), [N(math.floor)(v) for v in xs]), ("x.ceil()", lambda: t.x.ceil(), [N(math.ceil)(v) for v in xs]), ("x.abs()", lambda: t.x.abs(), [N(abs)(v) for v in xs]), ("n.abs()", lambda: t.n.abs(), [N(abs)(v) for v in ns]),
+            ("-x", lambda: -t.x, [N(lambda v: -v)(v) for v in xs]), ("x ** 2", lambda: t.x**2, [N(lambda v: v**2)(v) for v in xs]), ("n ** 2", lambda: t.n**2, [N(lambda v: float(v**2))(v) for v in ns]),
+            ("x.abs().sqrt()", lambda: t.x.abs().sqrt(), [N(lambda v: math.sqrt(abs(v)))(v) for v in xs]), ("x.exp()", lambda: (t.x / 50).exp(), [N(lambda v: math.exp(v / 50))(v) for v in xs]),
+            ("(x.abs() + 1).log()", lambda: (t.x.abs() + 1).log(), [N(lambda v: math.log(abs(v) + 1))(v) for v in xs]), ("(x.abs() + 1).log10()", lambda: (t.x.abs() + 1).log10(), [N(lambda v: math.log10(abs(v) + 1))(v) for v in xs]),
+            ("x.sin()", lambda: t.x.sin(), [N(math.sin)(v) for v in xs]), ("x.cos()", lambda: t.x.cos(), [N(math.cos)(v) for v in xs]), ("x.cbrt()", lambda: t.x.cbrt(), [N(lambda v: math.copysign(abs(v) ** (1 / 3), v))(v) for v in xs]),
+            ("n // 4", lambda: t.n // 4, [N(lambda v: int(math.trunc(v / 4)) if False else (abs(v) // 4) * (1 if v >= 0 else -1))(v) for v in ns]), ("n % 4", lambda: t.n % 4, [N(lambda v: int(math.fmod(v, 4)))(v) for v in ns]),
+            ("n.clip(-5, 5)", lambda: t.n.clip(-5, 5), [N(lambda v: max(-5, min(5, v)))(v) for v in ns]), ("x.clip(0, None)", lambda: t.x.clip(0.0, None), [N(lambda v: max(0.0, v))(v) for v in xs]),
+        ]
+        n, bad = 0, []
+        with warnings.catch_warnings():
+            warnings.simplefilter("ignore")
+            for label, mk, want in cases:
+                n += 1
+                try:
+                    got = (t >> pdt.mutate(r=mk()) >> pdt.arrange(t.h) >> pdt.export(pdt.Polars()))["r"].to_list()
+                except pdt.errors.NotSupportedError:
+                    continue
+                except Exception as ex:  # noqa: BLE001
+                    bad.append(f"{label} on {backend}: raises {type(ex).__name__}: {str(ex)[:140]}")
+                    continue
+                ok = len(got) == len(want) and all((g is None and w is None) or (g is not None and w is not None and w != "domain" and abs(float(g) - float(w)) <= 1e-9 * max(1.0, abs(float(w)))) or w == "domain" for g, w in zip(got, want))
+                if not ok:
+                    bad.append(f"{label} on {backend}: engine {got}, Python gives {want}")
+        return _enum_outcome(f"numeric functions on {backend} agree with Python's math on sampled values (no rounding ties)", n, bad)
+
+    return run
+
+
 def obligations(tier):
     obs = []
     backend_cls = {"polars": H.polars_backend.PolarsImpl, "sqlite": H.sqlite_backend.SqliteImpl}
@@ -539,6 +682,12 @@ def obligations(tier):
                             carveouts={"null_input": "exclude a null first operand", "whole": "whole obligation"},
                         )
                     )
+    for backend in BACKENDS:
+        obs.append(Obligation(f"C03/LIB-dt/{backend}", "LIB", f"temporal operators on {backend} against Python's datetime (the symbolic model treats temporal values as abstract ordinals)", temporal_run_factory(backend),
+                              functions=[disp[backend]], bounded="26 temporal expressions on 6 rows (leap day, year end, microseconds, negative durations, nulls); native execution", tags=("cross_backend",)))
+    for backend in BACKENDS:
+        obs.append(Obligation(f"C03/LIB-num/{backend}", "LIB", f"rounding / power / transcendental functions on {backend} against Python's math", numeric_run_factory(backend), functions=[disp[backend]],
+                              bounded="21 numeric expressions on 8 rows (negative values, nulls, no rounding ties); native execution", tags=("cross_backend",)))
     obs.append(Obligation("C03/B/method_binding", "B", "methods, accessors, reflected operators and free functions are bound to their operators with the arguments in order", binding_run,
                           functions=[H.fn_info(H.col_expr_mod.ColFn.__init__)], bounded="up to 4 column-only and 8 literal-carrying argument shapes per operator (every operator of the registry); the bound method is a straight-line constructor call"))
     from pydiverse.common import Float64, Int64, String
